@@ -179,6 +179,16 @@ class World:
                     return tag + ": alignment_error %.12g, expected %.12g" % (got_err, want_err)
             if not L.close(al.aligned_source().points, al.apply(self.src_pts), 1e-12):
                 return tag + ": aligned_source() is not the transform applied to the source"
+            if cfg in ("translation", "similarity", "similarity_m", "similarity_norot", "affine", "tps"):
+                # the families that contain translations are translation-equivariant: the same configuration far from the origin
+                # (offsets 1e5, not whole numbers) gives the same fit carried along - "all non-degenerate point sets"
+                far_t = np.array([1.0e5 + 0.25, -2.0e5 + 0.5])
+                far = _ctor(cfg)(PointCloud(self.src_pts + far_t), PointCloud(fitted_to + far_t))
+                if not np.allclose(far.apply(self.src_pts + far_t) - far_t, fresh.apply(self.src_pts), rtol=0, atol=1e-4):
+                    return tag + ": the same alignment problem translated far from the origin is not solved by the translated fit"
+                # (the affine fit solves uncentred normal equations: at offsets of 1e5 it keeps ~6 digits - accuracy, not the property)
+                if hasattr(far, "h_matrix") and not np.allclose(far.h_matrix[:2, :2], fresh.h_matrix[:2, :2], rtol=0, atol=1e-5 if cfg == "affine" else 1e-9):
+                    return tag + ": the linear part of the fit changes when both point sets are translated far from the origin"
             e2 = float(np.linalg.norm(al.target.points - al.aligned_source().points))
             if abs(al.alignment_error() - e2) > 1e-9 * max(1.0, e2):
                 return tag + ": alignment_error is not the distance between aligned source and target"
